@@ -17,15 +17,15 @@ import (
 type Kind int
 
 const (
-	EvCreate Kind = iota // openat with O_CREAT that created / opened a file
-	EvWrite              // write/pwrite64: Off, Data
-	EvTruncate           // ftruncate: Size
-	EvRename             // rename: Path -> Path2
-	EvUnlink             // unlinkat
-	EvMkdir              // mkdirat
-	EvFsync              // fsync/fdatasync of Path
-	EvSync               // sync()/syncfs: everything durable
-	EvMark               // marker line written to stdout by the workload (BEG n / ACK n / ...)
+	EvCreate   Kind = iota // openat with O_CREAT that created / opened a file
+	EvWrite                // write/pwrite64: Off, Data
+	EvTruncate             // ftruncate: Size
+	EvRename               // rename: Path -> Path2
+	EvUnlink               // unlinkat
+	EvMkdir                // mkdirat
+	EvFsync                // fsync/fdatasync of Path
+	EvSync                 // sync()/syncfs: everything durable
+	EvMark                 // marker line written to stdout by the workload (BEG n / ACK n / ...)
 )
 
 func (k Kind) String() string {
